@@ -1074,3 +1074,114 @@ Theorem C05_src_c_avx512_blake3_hash_many_avx512_loop4 : forall h16 h8 h4 (cip :
   = (r <- single_loop (hash_one_c cip) cadd_c false inputs bn key counter incr flags fs fe 0 ;; Ok (acc ++ r)).
 Proof. exact src_c_avx512_blake3_hash_many_avx512_loop4_ok. Qed.
 Print Assumptions C05_src_c_avx512_blake3_hash_many_avx512_loop4.
+
+(* BEGIN block of tools/gen_coq_kern2.py / Proofs/GenKern2P.v (the WHOLE hashN functions, translated)  *)
+(* ================================================================== *)
+From V Require Import Model.Intrinsics gen.GenKern2 Proofs.RoundsP Proofs.GenKern2P.
+(* The whole hash4 / hash8 / hash16 of src/rust_sse2.rs, src/rust_sse41.rs, src/rust_avx2.rs and c/blake3_avx512.c, translated
+   statement by statement (key broadcast, load_counters, block_flags bookkeeping, `for block` loop, final transposes,
+   every store to `out`): the final contents of `out` are the concatenated CVs of the kernel model, for every key of 8
+   32-bit words (W x := x < 2^32), inputs of blocks*64 bytes, u8 flags, counter + lanes within u64, `out` of lanes*32 bytes *)
+Theorem C05_src_k2_rs_sse2_hash4 : forall inputs blocks key counter incr flags fs fe out,
+  length key = 8%nat -> Forall W key ->
+  (forall j, (j < 4)%nat -> length (inp inputs j) = (blocks * 64)%nat) ->
+  counter + 4 <= 2 ^ 64 -> flags < 256 -> fs < 256 -> fe < 256 -> length out = 128%nat ->
+  k2_rs_sse2_hash4 inputs blocks key counter incr flags fs fe out =
+  (outs <- hash4_rs inputs blocks key counter incr flags fs fe ;; Ok (concat outs)).
+Proof. exact k2_rs_sse2_hash4_ok. Qed.
+Print Assumptions C05_src_k2_rs_sse2_hash4.
+(* ... hence Portable.hash1 of each of the 4 inputs with counters counter + i (hm_spec) *)
+Theorem C05_src_k2_rs_sse2_hash4_portable : forall inputs blocks key counter incr flags fs fe out,
+  length inputs = 4%nat -> length key = 8%nat -> Forall W key ->
+  (forall i, In i inputs -> length i = (blocks * 64)%nat) ->
+  counter + 4 <= 2 ^ 64 -> flags < 256 -> fs < 256 -> fe < 256 -> length out = 128%nat ->
+  k2_rs_sse2_hash4 inputs blocks key counter incr flags fs fe out =
+  Ok (concat (hm_spec inputs key counter incr flags fs fe)).
+Proof. exact k2_rs_sse2_hash4_spec. Qed.
+Print Assumptions C05_src_k2_rs_sse2_hash4_portable.
+Theorem C05_src_k2_rs_sse41_hash4 : forall inputs blocks key counter incr flags fs fe out,
+  length key = 8%nat -> Forall W key ->
+  (forall j, (j < 4)%nat -> length (inp inputs j) = (blocks * 64)%nat) ->
+  counter + 4 <= 2 ^ 64 -> flags < 256 -> fs < 256 -> fe < 256 -> length out = 128%nat ->
+  k2_rs_sse41_hash4 inputs blocks key counter incr flags fs fe out =
+  (outs <- hash4_rs inputs blocks key counter incr flags fs fe ;; Ok (concat outs)).
+Proof. exact k2_rs_sse41_hash4_ok. Qed.
+Print Assumptions C05_src_k2_rs_sse41_hash4.
+(* ... hence Portable.hash1 of each of the 4 inputs with counters counter + i (hm_spec) *)
+Theorem C05_src_k2_rs_sse41_hash4_portable : forall inputs blocks key counter incr flags fs fe out,
+  length inputs = 4%nat -> length key = 8%nat -> Forall W key ->
+  (forall i, In i inputs -> length i = (blocks * 64)%nat) ->
+  counter + 4 <= 2 ^ 64 -> flags < 256 -> fs < 256 -> fe < 256 -> length out = 128%nat ->
+  k2_rs_sse41_hash4 inputs blocks key counter incr flags fs fe out =
+  Ok (concat (hm_spec inputs key counter incr flags fs fe)).
+Proof. exact k2_rs_sse41_hash4_spec. Qed.
+Print Assumptions C05_src_k2_rs_sse41_hash4_portable.
+Theorem C05_src_k2_rs_avx2_hash8 : forall inputs blocks key counter incr flags fs fe out,
+  length key = 8%nat -> Forall W key ->
+  (forall j, (j < 8)%nat -> length (inp inputs j) = (blocks * 64)%nat) ->
+  counter + 8 <= 2 ^ 64 -> flags < 256 -> fs < 256 -> fe < 256 -> length out = 256%nat ->
+  k2_rs_avx2_hash8 inputs blocks key counter incr flags fs fe out =
+  (outs <- hash8_rs inputs blocks key counter incr flags fs fe ;; Ok (concat outs)).
+Proof. exact k2_rs_avx2_hash8_ok. Qed.
+Print Assumptions C05_src_k2_rs_avx2_hash8.
+(* ... hence Portable.hash1 of each of the 8 inputs with counters counter + i (hm_spec) *)
+Theorem C05_src_k2_rs_avx2_hash8_portable : forall inputs blocks key counter incr flags fs fe out,
+  length inputs = 8%nat -> length key = 8%nat -> Forall W key ->
+  (forall i, In i inputs -> length i = (blocks * 64)%nat) ->
+  counter + 8 <= 2 ^ 64 -> flags < 256 -> fs < 256 -> fe < 256 -> length out = 256%nat ->
+  k2_rs_avx2_hash8 inputs blocks key counter incr flags fs fe out =
+  Ok (concat (hm_spec inputs key counter incr flags fs fe)).
+Proof. exact k2_rs_avx2_hash8_spec. Qed.
+Print Assumptions C05_src_k2_rs_avx2_hash8_portable.
+Theorem C05_src_k2_c_avx512_blake3_hash4_avx512 : forall inputs blocks key counter incr flags fs fe out,
+  length key = 8%nat -> Forall W key ->
+  (forall j, (j < 4)%nat -> length (inp inputs j) = (blocks * 64)%nat) ->
+  counter + 4 <= 2 ^ 64 -> flags < 256 -> fs < 256 -> fe < 256 -> length out = 128%nat ->
+  Ok (k2_c_avx512_blake3_hash4_avx512 inputs blocks key counter incr flags fs fe out) =
+  (outs <- hash4_avx512 inputs blocks key counter incr flags fs fe ;; Ok (concat outs)).
+Proof. exact k2_c_avx512_blake3_hash4_avx512_ok. Qed.
+Print Assumptions C05_src_k2_c_avx512_blake3_hash4_avx512.
+(* ... hence Portable.hash1 of each of the 4 inputs with counters counter + i (hm_spec) *)
+Theorem C05_src_k2_c_avx512_blake3_hash4_avx512_portable : forall inputs blocks key counter incr flags fs fe out,
+  length inputs = 4%nat -> length key = 8%nat -> Forall W key ->
+  (forall i, In i inputs -> length i = (blocks * 64)%nat) ->
+  counter + 4 <= 2 ^ 64 -> flags < 256 -> fs < 256 -> fe < 256 -> length out = 128%nat ->
+  Ok (k2_c_avx512_blake3_hash4_avx512 inputs blocks key counter incr flags fs fe out) =
+  Ok (concat (hm_spec inputs key counter incr flags fs fe)).
+Proof. exact k2_c_avx512_blake3_hash4_avx512_spec. Qed.
+Print Assumptions C05_src_k2_c_avx512_blake3_hash4_avx512_portable.
+Theorem C05_src_k2_c_avx512_blake3_hash8_avx512 : forall inputs blocks key counter incr flags fs fe out,
+  length key = 8%nat -> Forall W key ->
+  (forall j, (j < 8)%nat -> length (inp inputs j) = (blocks * 64)%nat) ->
+  counter + 8 <= 2 ^ 64 -> flags < 256 -> fs < 256 -> fe < 256 -> length out = 256%nat ->
+  Ok (k2_c_avx512_blake3_hash8_avx512 inputs blocks key counter incr flags fs fe out) =
+  (outs <- hash8_avx512 inputs blocks key counter incr flags fs fe ;; Ok (concat outs)).
+Proof. exact k2_c_avx512_blake3_hash8_avx512_ok. Qed.
+Print Assumptions C05_src_k2_c_avx512_blake3_hash8_avx512.
+(* ... hence Portable.hash1 of each of the 8 inputs with counters counter + i (hm_spec) *)
+Theorem C05_src_k2_c_avx512_blake3_hash8_avx512_portable : forall inputs blocks key counter incr flags fs fe out,
+  length inputs = 8%nat -> length key = 8%nat -> Forall W key ->
+  (forall i, In i inputs -> length i = (blocks * 64)%nat) ->
+  counter + 8 <= 2 ^ 64 -> flags < 256 -> fs < 256 -> fe < 256 -> length out = 256%nat ->
+  Ok (k2_c_avx512_blake3_hash8_avx512 inputs blocks key counter incr flags fs fe out) =
+  Ok (concat (hm_spec inputs key counter incr flags fs fe)).
+Proof. exact k2_c_avx512_blake3_hash8_avx512_spec. Qed.
+Print Assumptions C05_src_k2_c_avx512_blake3_hash8_avx512_portable.
+Theorem C05_src_k2_c_avx512_blake3_hash16_avx512 : forall inputs blocks key counter incr flags fs fe out,
+  length key = 8%nat -> Forall W key ->
+  (forall j, (j < 16)%nat -> length (inp inputs j) = (blocks * 64)%nat) ->
+  counter + 16 <= 2 ^ 64 -> flags < 256 -> fs < 256 -> fe < 256 -> length out = 512%nat ->
+  Ok (k2_c_avx512_blake3_hash16_avx512 inputs blocks key counter incr flags fs fe out) =
+  (outs <- hash16_avx512 inputs blocks key counter incr flags fs fe ;; Ok (concat outs)).
+Proof. exact k2_c_avx512_blake3_hash16_avx512_ok. Qed.
+Print Assumptions C05_src_k2_c_avx512_blake3_hash16_avx512.
+(* ... hence Portable.hash1 of each of the 16 inputs with counters counter + i (hm_spec) *)
+Theorem C05_src_k2_c_avx512_blake3_hash16_avx512_portable : forall inputs blocks key counter incr flags fs fe out,
+  length inputs = 16%nat -> length key = 8%nat -> Forall W key ->
+  (forall i, In i inputs -> length i = (blocks * 64)%nat) ->
+  counter + 16 <= 2 ^ 64 -> flags < 256 -> fs < 256 -> fe < 256 -> length out = 512%nat ->
+  Ok (k2_c_avx512_blake3_hash16_avx512 inputs blocks key counter incr flags fs fe out) =
+  Ok (concat (hm_spec inputs key counter incr flags fs fe)).
+Proof. exact k2_c_avx512_blake3_hash16_avx512_spec. Qed.
+Print Assumptions C05_src_k2_c_avx512_blake3_hash16_avx512_portable.
+(* END block of tools/gen_coq_kern2.py / Proofs/GenKern2P.v *)
